@@ -20,7 +20,22 @@ from vf import histbfs
 from vf.c04_model import MOD, NONTRIVIAL_RULE, replay_case
 from vf.common import Ctx
 
-BUDGET = {'quick': 62.0, 'thorough': 1560.0}
+BUDGET = {'quick': 66.0, 'thorough': 1560.0}
+BOUND = {
+    'quick': (
+        'all call histories of length <= 2 on radixes (2,3) [full alphabet] '
+        'and (2,2,2) [lean alphabet], and of length <= 3 on (2,2) [lean '
+        'alphabet], states merged by canonical key; 179,338 transitions / '
+        '50,241 states on the unchanged tree, ~400-600 CPU-s (measured 2-3.5 '
+        'ms per transition), i.e. ~35-50 s on 16 idle cores; exhaustive is '
+        'true only if no time cap was hit'),
+    'thorough': (
+        'histories of length <= 3 on (2,2), (2,3) [full] and (2,2,2), '
+        '(3,2,2) [lean]; every single-position deviation of a 28-call '
+        '5-qubit and a 26-call (2,3,2,2,3,2) brick-work script; two '
+        'consecutive deviations after a 14-call 5-qubit script; length <= 4 '
+        'on (2,2) [lean] as far as the remaining time allows'),
+}
 
 
 def brickwork(radixes: tuple, layers: int) -> list:
@@ -138,6 +153,7 @@ def run_search(ctx: Ctx, prop: str) -> None:
     ctx.cov['evaluations'] = trans
     ctx.cov['distinct_nontrivial'] = nontriv
     ctx.cov['max_depth'] = maxd
+    ctx.cov['bound'] = BOUND[ctx.tier]
     ctx.cov['rule'] = (
         'breadth-first over all histories of public Circuit editing calls '
         '(arguments instantiated from the current grid, in and out of range) '
